@@ -103,6 +103,12 @@ def run(ctx):
             meta[jid + "_l"] = ("generated", p)
         jobs.append((jid + "_e", "entry_points", None, R.contract_item(True), False))
         meta[jid + "_e"] = ("generated", p)
+        if k % 3 == 0:
+            # the entry-point macro does not care how (or whether) the contract macro is spelled above the impl
+            jobs.append((jid + "_e2", "entry_points", None, R.contract_item(False), False))
+            meta[jid + "_e2"] = ("generated", p)
+            jobs.append((jid + "_e3", "entry_points", None, "#[sylvia_contract]\n" + R.contract_item(False), False))
+            meta[jid + "_e3"] = ("generated", p)
         for part in p["parts"][1:]:
             jobs.append((f"{jid}_{part['id']}", "interface", None, R.iface_item(part), False))
             meta[f"{jid}_{part['id']}"] = ("generated", p)
